@@ -21,8 +21,8 @@ META = {
     "id": "C09",
     "level": "proof",
     "technique": "Coq theorems (unbounded: all old paths, interfaces, limits, draws and engine streams; induction over engine streams and the jump loop) about an executable model of shoot / wire_fencing / extender / subt_acceptance / select_shoot / run_md glue, with the repaired add_to_path stop rule /repo has now; scripted-engine + scripted-generator lock-step of the extracted model against the REAL moves; the property's own statement evaluated on the implementation's outputs (also for retis_swap_zero)",
-    "text": "For every old path, interface triple, cap, length limits, n_jumps, random draws and engine streams: shoot / wire_fencing / select_shoot report acceptance iff the status is ACC and run_md installs the new path iff accepted, otherwise returns the old path unchanged (C09_accept_iff_ACC_*, C09_run_md_replaces_iff_accepted, C09_reject_untouched). An accepted shooting path is xb, reversed backward interior, shooting point, forward interior, xf with (i) xb, xf outside [i0,i2] (stop-rule operators), start on an allowed side, no end on the left without 'L'; (ii) all other frames inside; (iii) the ensemble interface crossed; (iv) 3 <= length <= maxlength and length-2 <= (L_old-2)/r; (v) the shooting point is an interior frame of the old path and sits at index len(back)-1; (vi) position p holds the frame the engine produced |p-jb| steps from the shooting point, backward frames (velocities reversed) before it, forward frames after it, time origin shifted accordingly; (vii) own-ensemble entry of calc_cv_vector = 1 (C09_acc_valid_shoot, C09_acc_shoot_time_ordered, C09_acc_own_weight_shoot_plus/minus). C09_shooting_index_interior: index in [1, L-2] for every u in [0,1). C09_accept_rule: a trial whose trajectories reach the interfaces, fits maxlength and would be valid is accepted iff r <= n_old/n_new; for the rule before the repair the guarded form r <= n_old/(n_new+1) and the refutation witness (L_old 7, r 1/2, L_new 12) are proved. An accepted wire-fencing path is shorter than maxlength, starts on the ensemble's side, has ends that cannot be extended and an inside interior, crosses lambda_i, and has positive wire-fencing weight provided no frame lies exactly on the cap (C09_acc_valid_wire_fencing, C09_acc_own_weight_wire_fencing); without that guard the weight can be 0 (C09_wire_fencing_weight_on_cap_refuted, recorded finding).",
-    "note": "Zero swaps: the Coq model of retis_swap_zero / quantis_swap_zero is C11's (model/SwapM.v, another builder); C09 has no theorem about them and only evaluates the statement (accept iff ACC, accepted paths valid in [0-]/[0+], crossing frames exchanged, old paths untouched, non-zero own weights) on the real retis_swap_zero with shooting moves and the one global maxlength of the real program. Known finding (not repaired, no small safe patch: the boundary conventions '> cap' of add_to_path and '>= cap' of wirefence_weight_and_pick differ): an accepted wire-fencing path with a frame exactly on the cap, reached by a jump over [lambda_i, cap), has weight 0 — reported as KNOWN-FINDING only for accepted paths that contain a frame equal to the cap. Observations outside the statement are listed in the evidence (path.weight attribute 0.0 after Path.reverse; status/generated of the old path object rewritten by wire_fencing on NSG). Trusted: Coq kernel; extraction (ExtrOcamlBasic) + ocaml/util.ml + ocaml/c09_driver.ml; this harness (scripted engine/generator, encoders, generators, oracle). numpy's Generator.integers is modelled by its contract (a value in [low, high)) and sampled on the real generator through Path.get_shooting_point. int((L-2)/r) is modelled as the floor of the exact rational; draws whose float quotient is not exact are skipped and counted. The engine is assumed to honour the propagate contract (C12). Orders are integer valued so every comparison is exact; 'outside' follows the code's own operators (stop rule < / >, classification <= / >=). All theorems are closed under the global context (no axioms).",
+    "text": "For every old path, interface triple, cap, length limits, n_jumps, random draws and engine streams: shoot / wire_fencing / select_shoot report acceptance iff the status is ACC and run_md installs the new path iff accepted, otherwise returns the old path unchanged (C09_accept_iff_ACC_*, C09_run_md_replaces_iff_accepted, C09_reject_untouched). An accepted shooting path is xb, reversed backward interior, shooting point, forward interior, xf with (i) xb, xf outside [i0,i2] (stop-rule operators), start on an allowed side, no end on the left without 'L'; (ii) all other frames inside; (iii) the ensemble interface crossed; (iv) 3 <= length <= maxlength and length-2 <= (L_old-2)/r; (v) the shooting point is an interior frame of the old path and sits at index len(back)-1; (vi) position p holds the frame the engine produced |p-jb| steps from the shooting point, backward frames (velocities reversed) before it, forward frames after it, time origin shifted accordingly; (vii) own-ensemble entry of calc_cv_vector = 1 (C09_acc_valid_shoot, C09_acc_shoot_time_ordered, C09_acc_own_weight_shoot_plus/minus); for [0-] this holds with lambda_minus_one absent or ANY number l <= the ensemble's left interface, 0 included (lambda_minus_one is an option in the model, never a truth value; C09_example_minus_lambda_minus_one_zero is an accepted L->L move with lambda_minus_one = 0 that never reaches lambda_0 and carries (1,)). C09_shooting_index_interior: index in [1, L-2] for every u in [0,1). C09_accept_rule: a trial whose trajectories reach the interfaces, fits maxlength and would be valid is accepted iff r <= n_old/n_new; for the rule before the repair the guarded form r <= n_old/(n_new+1) and the refutation witness (L_old 7, r 1/2, L_new 12) are proved. An accepted wire-fencing path is shorter than maxlength, starts on the ensemble's side, has ends that cannot be extended and an inside interior, crosses lambda_i, and has positive wire-fencing weight provided no frame lies exactly on the cap (C09_acc_valid_wire_fencing, C09_acc_own_weight_wire_fencing); without that guard the weight can be 0 (C09_wire_fencing_weight_on_cap_refuted, recorded finding).",
+    "note": "Permeability family (perm_*): the real run_md -> select_shoot -> shoot chain for [0-] moves with (lambda_-1, lambda_0) in (0,2), (0,4), (-2,2), (-4,-2), (1,3), (2,6) (ensemble (lambda_-1, mid, lambda_0), start_cond L/R, tis_set.lambda_minus_one a float, 0.0 included) and without lambda_minus_one (lambda_0 = 3, 0, -2): every valid old path of length 3..5 x every shooting index x backward/forward trajectories leaving on either side, so that accepted L->L, L->R, R->L and R->R paths occur with and without reaching lambda_0 and with frames on the interfaces; oracle: status ACC => the installed path carries calc_cv_vector's weights and its own-ensemble weight is non-zero (counts per type in the evidence under runmd_minus_ACC:*). Zero swaps: the Coq model of retis_swap_zero / quantis_swap_zero is C11's (model/SwapM.v, another builder); C09 has no theorem about them and only evaluates the statement (accept iff ACC, accepted paths valid in [0-]/[0+], crossing frames exchanged, old paths untouched, non-zero own weights) on the real retis_swap_zero with shooting moves and the one global maxlength of the real program. Known finding (not repaired, no small safe patch: the boundary conventions '> cap' of add_to_path and '>= cap' of wirefence_weight_and_pick differ): an accepted wire-fencing path with a frame exactly on the cap, reached by a jump over [lambda_i, cap), has weight 0 — reported as KNOWN-FINDING only for accepted paths that contain a frame equal to the cap. Observations outside the statement are listed in the evidence (path.weight attribute 0.0 after Path.reverse; status/generated of the old path object rewritten by wire_fencing on NSG). Trusted: Coq kernel; extraction (ExtrOcamlBasic) + ocaml/util.ml + ocaml/c09_driver.ml; this harness (scripted engine/generator, encoders, generators, oracle). numpy's Generator.integers is modelled by its contract (a value in [low, high)) and sampled on the real generator through Path.get_shooting_point. int((L-2)/r) is modelled as the floor of the exact rational; draws whose float quotient is not exact are skipped and counted. The engine is assumed to honour the propagate contract (C12). Orders are integer valued so every comparison is exact; 'outside' follows the code's own operators (stop rule < / >, classification <= / >=). All theorems are closed under the global context (no axioms).",
     "design_ref": "4/C09, lead L11",
 }
 LEVEL = "proof"
@@ -154,7 +154,8 @@ def ens_of(case, rng):
         tis["interface_cap"] = case["cap"]
     if case.get("njumps") is not None:
         tis["n_jumps"] = case["njumps"]
-    tis["lambda_minus_one"] = case.get("lm1") if case.get("lm1") is not None else False
+    # as read from the toml file: False when not in use, else a float (0.0 is a legal value)
+    tis["lambda_minus_one"] = float(case["lm1"]) if case.get("lm1") is not None else False
     return {
         "interfaces": tuple(num(x) for x in case["intf"]), "tis_set": tis, "mc_move": case.get("move", "sh"),
         "ens_name": "001", "start_cond": sc_py(case["sc"]), "rgen": rng,
@@ -759,6 +760,49 @@ def gen_wf_random(ctx, n):
     return out
 
 
+# [0-] ensembles of permeability set-ups, as REPEX_state.initiate_ensembles builds them:
+# interfaces (lambda_-1, (lambda_-1 + lambda_0)/2, lambda_0), start_cond ['L', 'R'].  lambda_-1 = 0.0 is a legal
+# value (check_config only asks lambda_-1 < lambda_0).  lm1 None: lambda_minus_one not in use,
+# interfaces (-inf, lambda_0, lambda_0), start_cond 'R'.
+PERM_SETUPS = [(0, 2), (0, 4), (-2, 2), (-4, -2), (1, 3), (2, 6), (None, 3), (None, 0), (None, -2)]
+
+
+def perm_cfg(lm1, lam0):
+    if lm1 is None:
+        return {"intf": ["-inf", lam0, lam0], "sc": "R", "inside": [lam0 - 2, lam0 - 1, lam0], "xl": None, "xr": lam0 + 1}
+    # the stop rule is strict (< lambda_-1, > lambda_0): frames ON either interface are inside
+    return {"intf": [lm1, (lm1 + lam0) // 2, lam0], "sc": "LR", "inside": list(range(lm1, lam0 + 1)), "xl": lm1 - 1, "xr": lam0 + 1}
+
+
+def gen_perm(ctx, per_long):
+    """The real run_md -> select_shoot -> shoot chain for [0-] moves: every set-up of PERM_SETUPS x every valid
+    old path of length 3..5 x every shooting index x backward / forward trajectories of 2 or 3 frames leaving
+    on either side (so that L->L, L->R, R->L and R->R trial paths all occur, with and without reaching
+    lambda_0, with frames on the interfaces).  All 16 patterns for short old paths, `per_long` random ones
+    for the others."""
+    rng = ctx.rng
+    out = []
+    pats = list(itertools.product((2, 3), "LR", (2, 3), "LR"))
+    for lm1, lam0 in PERM_SETUPS:
+        cfg = perm_cfg(lm1, lam0)
+        wide = len(cfg["inside"]) > 3
+        for L in range(3, 6):
+            for o in valid_olds(cfg, L):
+                for idx in range(1, L - 1):
+                    full = L == 3 or (L == 4 and not wide)
+                    for nb, bs, nf, fs in (pats if full else rng.sample(pats, per_long)):
+                        r = Fr(1, 2) if full else rng.choice([Fr(1, 2), Fr(1, 1), Fr(1, 4)])
+                        c = {"kind": "shoot", "intf": cfg["intf"], "sc": cfg["sc"], "maxlength": rng.choice([6, 7, 40]),
+                             "allowmax": False,
+                             "old": {"orders": list(o), "revs": [rng.random() < 0.5 for _ in o], "maxlen": 50,
+                                     "t0": rng.randrange(-3, 9), "ld": False},
+                             "draws": [str(u_for_idx(idx, L)), str(r)], "kicks": [],
+                             "streams": [stream_pattern(rng, cfg, nb, bs), stream_pattern(rng, cfg, nf, fs)],
+                             "class": "perm_lm1_" + ("absent" if lm1 is None else "zero" if lm1 == 0 else "negative" if lm1 < 0 else "positive")}
+                        out.append(to_runmd(ctx, c, "runmd" if rng.random() < 0.85 else "sel"))
+    return out
+
+
 def to_runmd(ctx, case, kind):
     """Wrap a shoot / wf case into a select_shoot or run_md case with a consistent world."""
     rng = ctx.rng
@@ -818,6 +862,43 @@ def detect_variant():
     return res["status"] == "ACC", res
 
 
+def oracle_runmd(case, res, scratch, dist=None):
+    """The statement of C09 for one run_md call (the real run_md -> select_shoot -> move chain): the path is
+    replaced iff the status is ACC, the installed path carries calc_cv_vector's weights and has NON-ZERO
+    weight in its own ensemble, the old path's file is untouched.  Returns (error or None, info)."""
+    err, info = None, ""
+    kept, old = res["kept"], res["old"]
+    if res["status"] != "ACC" and kept is not old:
+        err = f"run_md replaced the path although the status is {res['status']}"
+    elif res["status"] == "ACC":
+        from infretis.core.tis import calc_cv_vector
+        if kept is old:
+            err = "run_md kept the old path although the move was accepted"
+        else:
+            expw = calc_cv_vector(kept, case["intfs"], case["mvs"], float(case["lm1"]) if case["lm1"] is not None else False,
+                                  cap=case.get("capg"), minus=case["minus"])
+            if tuple(kept.weights) != tuple(expw):
+                err = f"weights {kept.weights} are not calc_cv_vector of the new path {expw}"
+            own = 0 if case["minus"] else case["ens_num"]
+            ko = [int(s.order[0]) for s in kept.phasepoints]
+            if case["minus"] and dist:
+                left, right = num(case["intf"][0]), num(case["intf"][2])
+                dist(f"runmd_minus_ACC:{case['class']}:{letter(ko[0], left, right)}->{letter(ko[-1], left, right)}"
+                     f":{'reaches' if max(ko) >= right else 'below'}_lambda0")
+            if err is None and not kept.weights[own] > 0:
+                if case["move"] == "wf" and (case["cap"] if case.get("cap") is not None else case["intf"][2]) in ko:
+                    info = "known_zero_weight_on_cap"
+                else:
+                    err = (f"(vii) status ACC, run_md installed the new path, but its weight in its own ensemble is zero: weights {kept.weights}, "
+                           f"path {ko}, ensemble {'[0-]' if case['minus'] else case['ens_num']} interfaces {case['intf']} "
+                           f"start_cond {case['sc']}, lambda_minus_one = {res['ens']['tis_set']['lambda_minus_one']!r}")
+    if scratch and err is None:
+        f = os.path.join(scratch, "load", "old.lat")
+        if not os.path.exists(f) or open(f).read() != OLD_FILE_TEXT:
+            err = "the old path's file was modified or removed by the move"
+    return err, info
+
+
 def evaluate(ctx, cases, runner, fx, scratch):
     reqs = [model_req(c, fx) for c in cases]
     outs = runner.run(reqs)
@@ -836,28 +917,7 @@ def evaluate(ctx, cases, runner, fx, scratch):
             if res["status"] not in ("ERR", "AST"):
                 err, info = (oracle_shoot if case["move"] == "sh" else oracle_wf)(case, res)
         elif kind == "runmd" and res["status"] not in ("ERR", "AST"):
-            kept, old = res["kept"], res["old"]
-            if res["status"] != "ACC" and kept is not old:
-                err = f"run_md replaced the path although the status is {res['status']}"
-            elif res["status"] == "ACC":
-                from infretis.core.tis import calc_cv_vector
-                if kept is old:
-                    err = "run_md kept the old path although the move was accepted"
-                else:
-                    expw = calc_cv_vector(kept, case["intfs"], case["mvs"], case["lm1"] if case["lm1"] is not None else False,
-                                          cap=case.get("capg"), minus=case["minus"])
-                    if tuple(kept.weights) != tuple(expw):
-                        err = f"weights {kept.weights} are not calc_cv_vector of the new path {expw}"
-                    own = 0 if case["minus"] else case["ens_num"]
-                    if err is None and not kept.weights[own] > 0:
-                        if case["move"] == "wf" and (case["cap"] if case.get("cap") is not None else case["intf"][2]) in [int(s.order[0]) for s in kept.phasepoints]:
-                            info = "known_zero_weight_on_cap"
-                        else:
-                            err = f"(vii) own-ensemble weight is zero: {kept.weights}"
-            if scratch and err is None:
-                f = os.path.join(scratch, "load", "old.lat")
-                if not os.path.exists(f) or open(f).read() != OLD_FILE_TEXT:
-                    err = "the old path's file was modified or removed by the move"
+            err, info = oracle_runmd(case, res, scratch, ctx.dist)
         nontriv = res["status"] != "ERR"
         ctx.count(req, nontrivial=nontriv)
         ctx.dist(f"{kind}:{res['status']}")
@@ -1096,6 +1156,7 @@ def run(ctx):
         cases += gen_shoot_random(ctx, 1500 if quick else 40000)
         cases += gen_wf(ctx, 2 if quick else 24)
         cases += gen_wf_random(ctx, 1500 if quick else 40000)
+        cases += gen_perm(ctx, 2 if quick else 12)
         base = [c for c in cases if c["class"] in ("allolds", "wf_small", "random", "wf_random")]
         pick = ctx.rng.sample(base, min(len(base), 600 if quick else 12000))
         wrapped = []
@@ -1126,7 +1187,9 @@ def run(ctx):
         "patterns; hostile inputs (limits 0..4, r = 0, missing draws/streams, short paths, inverted interfaces, kicks); seeded "
         "random larger cases. Wire fencing: every valid old path (alphabet incl. values equal to each interface / the cap) of "
         "length 3..7 x n_jumps 1..3 x maxlength 3..30 x pick/index draws on a grid x random streams that end or run into the "
-        "limit; random larger cases. Zero swap (oracle only): every pair of valid [0-] x [0+] old paths of length 3..5 over a "
+        "limit; random larger cases. Permeability: run_md chain for [0-] with lambda_minus_one in {0.0, negative, positive, absent} "
+        "(9 set-ups) x every valid old path of length 3..5 x every shooting index x 2-3 frame trajectories leaving on either "
+        "side (all 16 patterns for short old paths, random ones beyond), oracle ACC => non-zero own weight. Zero swap (oracle only): every pair of valid [0-] x [0+] old paths of length 3..5 over a "
         "3-letter interior alphabet x random limits and trajectories. A case is distinct by its request line; non-trivial = the "
         "move did not raise.")
     ctx.cov["correspondence"] = {"compared": len(cases) + n_atp, "disagreements": stats["corr_fail"] + bad_atp,
@@ -1180,6 +1243,14 @@ def replay(doc):
         err, _ = oracle_shoot(case, res)
     elif case["kind"] == "wf":
         err, info = oracle_wf(case, res)
+        if info == "known_zero_weight_on_cap":
+            print("KNOWN-FINDING: property=C09", KNOWN_ZERO_WEIGHT)
+    elif case["kind"] == "sel" and res["status"] not in ("ERR", "AST"):
+        err, info = (oracle_shoot if case["move"] == "sh" else oracle_wf)(case, res)
+        if info == "known_zero_weight_on_cap":
+            print("KNOWN-FINDING: property=C09", KNOWN_ZERO_WEIGHT)
+    elif case["kind"] == "runmd" and res["status"] not in ("ERR", "AST"):
+        err, info = oracle_runmd(case, res, None)      # the scratch directory is gone: the file clause is not replayed
         if info == "known_zero_weight_on_cap":
             print("KNOWN-FINDING: property=C09", KNOWN_ZERO_WEIGHT)
     print("property oracle:", err or "holds on this input")
